@@ -24,7 +24,18 @@ def get_facts(config, thash):
     if key not in _facts_cache:
         d = extract.ensure_facts(config, thash)
         f = Facts(d)
-        normalize.apply(f)
+        try:
+            pairs = normalize.detect_adt_renames(f)
+            pre = []
+            if pairs:
+                # private types renamed: reload the fact files with the inventory names written back
+                f = Facts(d, text_filter=normalize.adt_rename_filter(pairs))
+                pre = ["type rename %s -> treated as %s" % (n, o) for o, n in pairs]
+            normalize.apply(f)
+            f.normalize_log = pre + list(getattr(f, "normalize_log", []))
+        except Exception as e:      # normalisation is an aid, never a reason to fail: analyse the facts as extracted
+            f = Facts(d)
+            f.normalize_log = ["normalisation skipped after an internal error: %s: %s" % (type(e).__name__, str(e)[:200])]
         _facts_cache[key] = f
     return _facts_cache[key]
 
